@@ -20,6 +20,8 @@ type Profile struct {
 	Level  string // exploration | fault_enumeration
 	Rule   string
 	Oracle func() Oracle
+	// LaneP re-runs the world's decisive runs with the real binary (optional).
+	LaneP func(t *testing.T, plan *Plan, w *World, sink *Sink)
 	// Explore generates and executes everything that belongs to world index idx
 	// and reports each execution to the sink.
 	Explore func(t *testing.T, seed uint64, idx int, tier string, sink *Sink)
@@ -164,6 +166,23 @@ func (s *Sink) Report(w *World) {
 	}
 }
 
+// LaneViolation records a violation found outside the bubble (lane P). The
+// plan is marked so that replay and shrinking run that lane again.
+func (s *Sink) LaneViolation(plan *Plan, sig, detail string) {
+	if knownSigs[sig] {
+		s.res.Known[sig]++
+		return
+	}
+	p := plan.Clone()
+	if p.Meta == nil {
+		p.Meta = map[string]string{}
+	}
+	p.Meta["lane"] = "P"
+	if len(s.res.Violations) < 12 {
+		s.res.Violations = append(s.res.Violations, FoundViolation{Sig: sig, Detail: detail, Plan: p})
+	}
+}
+
 func (s *Sink) finish() *Result {
 	r := s.res
 	r.Nontrivial = len(s.sigs)
@@ -286,7 +305,18 @@ func execPlan(t *testing.T, plan *Plan, known []string) *World {
 	if p == nil {
 		panic("plan for unknown property " + plan.Prop)
 	}
-	return Exec(t, plan, p.Oracle())
+	w := Exec(t, plan, p.Oracle())
+	if plan.Meta["lane"] == "P" && p.LaneP != nil && len(w.Viol) == 0 && w.Harness == "" {
+		sink := newSink(plan.Prop, nil)
+		p.LaneP(t, plan, w, sink)
+		for _, v := range sink.res.Violations {
+			w.Viol = append(w.Viol, Violation{Sig: v.Sig, Detail: v.Detail})
+		}
+		if len(sink.res.Harness) > 0 {
+			w.Harness = sink.res.Harness[0]
+		}
+	}
+	return w
 }
 
 func worldHashes(w *World) (string, string) {
